@@ -7,11 +7,12 @@
 (* TaskRunner (and Scheduler) to the same hold points with gates and compares.          *)
 EXTENDS Cancel, Json
 
+CONSTANT Holds    \* the hold points scenarios are built from
 VARIABLE hold
 gvars == <<vars, hold>>
 
-HoldPoints == IF UseSched THEN {"before", "cmd1", "gate2", "cmd2", "after", "done", "waiting"}
-              ELSE {"late", "before", "cmd1", "gate2", "cmd2", "after", "done"}
+\* runner: {"late","before","cmd1","gate2","cmd2","after","done"}; scheduler: "waiting" instead of "late"
+HoldPoints == Holds
 InFlightHold == {"before", "cmd1", "gate2", "cmd2", "after"}
 
 PcOf(h) == CASE h = "late" -> "idle" [] h = "waiting" -> "idle" [] h = "before" -> "beforeRun"
